@@ -1,7 +1,7 @@
 (* C16 — Session state exported at any point and restored resumes the session.  Statements only;
    proofs in Conn/Restore.v, Conn/OwnStep.v, Conn/SupStep.v and Conn/SessInv.v.  Nothing else may be added to this file. *)
 From MQ Require Import Base.Prelude Alloc.Alloc Alloc.AllocProofs Framing.Framing Conn.Types Conn.ConnRecord Conn.Step
-                       Corr.ConnTrace Conn.IdsQuota Conn.Scope Conn.Restore Conn.Own Conn.OwnFrame Conn.OwnStep Conn.SupFrame Conn.SupStep Conn.SessInv Conn.Run.
+                       Corr.ConnTrace Conn.IdsQuota Conn.Scope Conn.Restore Conn.Own Conn.OwnFrame Conn.OwnStep Conn.SupFrame Conn.SupStep Conn.SessInv Conn.AscQos2 Conn.Run.
 
 (* restore_packets on ANY object whose allocator is well formed, for EVERY export with distinct
    identifiers that are free: the store is extended by exactly the export in its order, each entry's
@@ -105,9 +105,24 @@ Theorem C16_history_restore_equal : forall g v ops c,
 Proof. exact history_restore_equal. Qed.
 Print Assumptions C16_history_restore_equal.
 
-(* C16_partial: on the MODEL side what is left is the ordering invariant of the handled-id set (asc, a
-   representation detail the theorem takes as a hypothesis) and the application contract itself.  The
-   implementation is judged by the paired-run monitor mon_pair (original implementation object vs restored
+(* ... with the ordering of the handled-identifier set an invariant too (AscQos2: kept by every call when the QoS 2
+   identifiers the parser hands in and the identifiers the application restores are within 1..idmax) *)
+Theorem C16_history_restore_equal_full : forall g v ops c,
+  1 <= g_idmax g -> v <> VUndet -> k_history_ok g (conn_new g v) ops -> ids_history_ok (g_idmax g) ops ->
+  run_state g (conn_new g v) ops = Some c -> c_need_store c = true -> no_app_ids c ->
+  let r := set_qos2 (do_restore (fresh_like g c) (c_store c)) (fold_left (fun s i => ins i s) (c_qos2 c) []) in
+  session_eq r c /\ conn_scope_eq r (fresh_like g c).
+Proof. exact history_restore_equal_full. Qed.
+Print Assumptions C16_history_restore_equal_full.
+
+Theorem C16_handled_set_stays_ordered : forall M g ops c,
+  asc 1 M (c_qos2 c) -> ids_history_ok M ops ->
+  match run_state g c ops with Some c' => asc 1 M (c_qos2 c') | None => True end.
+Proof. exact asc_qos2_invariant. Qed.
+Print Assumptions C16_handled_set_stays_ordered.
+
+(* C16_partial: on the MODEL side what is left is the application contract itself (k_history_ok, identifiers in
+   range).  The implementation is judged by the paired-run monitor mon_pair (original implementation object vs restored
    implementation object, events and full digest after the reconnect) and the store stage. *)
 
 Example C16_nonvacuous :
@@ -135,3 +150,22 @@ Example C16_history_nonvacuous :
   | None => False
   end.
 Proof. vm_compute. repeat split; try reflexivity; try discriminate; intros; try discriminate; auto. Qed.
+
+(* ... and with a QoS 2 PUBLISH received in between (handled set [7]) the identifiers are in range *)
+Example C16_history_full_nonvacuous :
+  let g := mkCfg RClient 65535 2 in
+  let cn := mkPkt 1 V50 0 0 false false [] None 0 0 20 false 0 false 0 None None None (Some 100) None in
+  let ca := mkPkt 2 V50 0 0 false false [] None 0 0 5 true 0 false 0 None None None None None in
+  let pb1 := mkPkt 3 V50 1 1 false false [116] None 0 3 10 false 0 false 0 None None None None None in
+  let qin := mkPkt 3 V50 7 2 false false [116] None 0 0 8 false 0 false 0 None None None None None in
+  let ops := [OSend cn; ORecv [32;3;0;0;0] (PROk ca); OAcquire; OSend pb1; ORecv [52;6;0;1;116;0;7;0] (PROk qin)] in
+  k_history_ok g (conn_new g V50) ops /\ ids_history_ok 65535 ops /\
+  match run_state g (conn_new g V50) ops with
+  | Some c => c_need_store c = true /\ map k_pid (c_store c) = [1] /\ c_qos2 c = [7] /\ c_puback c = [1] /\
+              a_pool (c_pid c) = [(2, 65535)]      (* the one identifier in use is awaited: the application holds none *)
+  | None => False
+  end.
+Proof.
+  vm_compute. repeat split; try reflexivity; try discriminate; intros; try discriminate; auto;
+  repeat match goal with H : _ = false |- _ => try discriminate H end.
+Qed.
